@@ -65,7 +65,8 @@ def finish(res, tier, seed, t0, proof):
         lines.append("VIOLATION property=%s replay=%s no-failing-input-found" % (pid, replay))
         rc = 1
     # concrete violations first; correspondence-only ones carry no-failing-input-found
-    for what, replay_obj, found in res.violations:
+    nviol = len([1 for v in res.violations if v[1] is not None])
+    for what, replay_obj, found in res.violations[:10]:
         if replay_obj is None:
             continue
         replay_obj = dict(replay_obj, property=pid, what=what, seed=seed, tier=tier)
@@ -77,9 +78,9 @@ def finish(res, tier, seed, t0, proof):
     # keep the output readable: at most 10 violation lines
     for l in lines[:10]:
         print(l)
-    if len(lines) > 10:
-        print("(%d further violations suppressed)" % (len(lines) - 10))
-    C.write_evidence(pid, tier, seed, cov, time.time() - t0, len(lines),
+    if nviol > 10:
+        print("(%d further violations suppressed)" % (nviol - 10))
+    C.write_evidence(pid, tier, seed, cov, time.time() - t0, max(len(lines), nviol),
                      ["model/implementation agreement is sampled, not proved",
                       "see coverage.trusted_base"])
     print("%s: %s (%d theorems, %s evaluations, %.1fs)" %
